@@ -41,7 +41,8 @@ def _execute(case):
           "rows": [{"a": r[0], "b": r[1], "top": str(r[2]), "mid": r[3]} for r in case["rows"]],
           "raised_fwd": "", "raised_back": "", "raised_again": "", "G": EMPTY_G, "G2": EMPTY_G,
           "el2": {"jds": [], "rows": [], "parallel": True},
-          "held_el_before": [], "held_el_after": [], "held_g_before": [], "held_g_after": []}
+          "held_el_before": [], "held_el_after": [], "held_g_before": [], "held_g_after": [],
+          "el2_before_edit": [], "el2_after_edit": []}
     try:
         net = gcmpy.EdgeListToNetwork.convert(el)
         tr["G"] = _proj(net.G)
@@ -70,6 +71,19 @@ def _execute(case):
         tr["G2"] = _proj(gcmpy.EdgeListToNetwork.convert(el2).G)
     except Exception as ex:
         tr["raised_again"] = type(ex).__name__
+    # the converted edge list is a value of its own: editing the network afterwards must not reach into it
+    if case.get("edit_after", True) and not tr["raised_again"]:
+        try:
+            before = _proj_el(el2)
+            es = list(net.G.edges())
+            if es:
+                net.G.remove_edge(*es[0])
+            net.G.add_edge(len(case["jds"]) + 5, len(case["jds"]) + 6)
+            tr["el2_before_edit"], tr["el2_after_edit"] = [before], [_proj_el(el2)]
+            if _HELD.get("net") is net:      # the 'held' clause of the next case compares with the graph as I left it
+                _HELD["g_proj"] = _proj(net.G)
+        except Exception:
+            pass
     return tr
 
 
